@@ -8,7 +8,7 @@ cd /verif
 J=3
 if [ "$1" = "-j" ]; then J=$2; shift 2; fi
 ids=("$@")
-if [ ${#ids[@]} -eq 0 ]; then ids=($(ls seeded | grep -v MATRIX)); fi
+if [ ${#ids[@]} -eq 0 ]; then ids=($(cd seeded && ls -d */ | tr -d /)); fi
 one() {
   id=$1
   d=/verif/seeded/$id
